@@ -130,6 +130,20 @@ def run(ctx):
                         detail = "filter on the selection flag"
     ctx.check(ok, R, "Update changes matching rows only", "", "Update::exec does not apply its assignments exactly to the rows whose condition evaluates true (%s)" % detail[:120], f.loc(), fn=f.name, key=R + "|Update")
 
+    # successive with() restrictions narrow the statement: combined with Expr::and, in all three builders
+    for st in ("Select", "Update", "Delete"):
+        g = prog.fn(Q + st + "::with", required=False)
+        if g is None:
+            ctx.anchor_missing(R, "%s::with" % st)
+            continue
+        comb = sorted({cname(prog, t).rsplit("::", 1)[-1] for u in prog.unit(g) for b, t in u.calls() if re.search(r"expr::Expr::(and|or|not|eq|ne)$", cname(prog, t))})
+        ctx.check(comb == ["and"], R, "%s::with adds a conjunct" % st, str(comb), "%s::with combines an existing condition and the new one with %s: a second with() must restrict further (AND)" % (st, comb),
+                  g.loc(), fn=g.name, key="%s|with|%s" % (R, st))
+    # the order of values (keys are sorted by it, comparisons evaluate by it): Null < Int < Str, as derived from the declaration order
+    adt = prog.adts.get("msi::internal::value::Value")
+    order = [v["name"] for v in sorted(adt["variants"], key=lambda v: v["discr"])] if adt else None
+    ctx.check(order == ["Null", "Int", "Str"], R, "Value orders Null < Int < Str", str(order), "enum Value declares its variants as %s: the derived ordering (row order of null keys, `<` on nulls) changes" % order,
+              key=R + "|value-order")
     R = "REL-UPD"
     ctx.rule(R, "Update::exec stores, for each (column, value) pair of the statement, ValueRef::create(value.clone()) into the cell at index_for_column_name(column) of the row being updated, "
                 "and touches no other cell")
